@@ -28,11 +28,15 @@ PLAN = {
     },
     "C08": {
         "level": "model_checking",
-        "engines": lambda tier: [_e("release", "pipemc", "c08")],
+        "engines": lambda tier: [
+            _e("release", "pipemc", "c08"),
+            _e("script", "indep/loomdrv.py", "c08", also_build=[("loom", "loommc")]),
+        ],
         "assumptions": [
             "the pipeline model (appendix B of DESIGN.md) abstracts what happens inside one compression call; every model trace replayed is confirmed step by step through Progress callbacks, and a divergence is a MACHINERY-ERROR, never a verdict",
             "worker count is set through the CPU affinity mask (taskset): W in {1,2,3} exhaustively (quick: at most 40 arrival orders per program), W in {7,15} with 6 orders per program in thorough",
             "a 20 s watchdog only turns a real deadlock into a verdict (all gates are then opened to tell a deadlock from a model mis-prediction)",
+            "engine L: the real clusterwriter.rs under loom (loom Mutex/Condvar, channel shims with hang-up semantics, loom threads, 1 blob per cluster, in-memory recipient; at most 2 workers because of loom's 5-thread limit), preemption bound 2",
         ],
     },
     "C14": {
